@@ -249,7 +249,7 @@ def generic(prop, configs_fn, rule, tier_arg=None, extra=None):
     t0 = time.time()
     res = GenResult()
     # the prebuilt patterns are assembled through class unions, i.e. through Python sets: every state runs under several hash seeds
-    hs = (0, 2, 5) if tier == 'quick' else (0, 1, 2, 5, 6, 10)
+    hs = (0, 2, 5) if tier == 'quick' else (0, 2, 5, 6)
     run_generated(configs_fn(tier, seed), 'harness.judge_meta.judge', {'prop': prop, 'facets': ['exact', 'matches', 'crash', 'compile', 'exc']},
                   seeds=hs, mode='all', batch=200, result=res)
     if prop in ARGS_CTORS:
